@@ -24,12 +24,19 @@ def sh(cmd, cwd=None, timeout=3600, env=None):
 
 
 def main():
-    prop, k = sys.argv[1], sys.argv[2]
-    extra = sys.argv[3:]
+    global VERIF
+    args = sys.argv[1:]
+    lane = None
+    if args[0] == "--lane":
+        # parallel lane: a private copy of /verif (rsync'ed by the caller) checks the scratch worktree through VERIF_REPO
+        lane = args[1]
+        args = args[2:]
+    prop, k = args[0], args[1]
+    extra = args[2:]
     src = "/tmp/mut/%s-out" % prop
     wt = "/tmp/mut/%s" % prop
     diff = os.path.join(src, "m%s.diff" % k)
-    out = os.path.join(VERIF, "seeded", "%s-m%s" % (prop, k))
+    out = os.path.join("/verif", "seeded", "%s-m%s" % (prop, k))
     os.makedirs(out, exist_ok=True)
     shutil.copy(diff, os.path.join(out, "patch.diff"))
     for suffix, name in (("-demo.md", "demo.md"),):
@@ -43,6 +50,17 @@ def main():
         except Exception as e:
             meta = {"meta_unreadable": str(e)}
     meta["seeded_for"] = prop
+    prev = os.path.join(out, "meta.json")
+    if os.path.exists(prev):
+        try:
+            old = json.load(open(prev))
+            hist = old.get("earlier_runs", [])
+            if "checks" in old:
+                hist.append({"caught_by": old.get("caught_by"), "checks": {p: r.get("exit") for p, r in old["checks"].items()},
+                             "note": "before the checks were strengthened (see DESIGN.md 12.8)"})
+            meta["earlier_runs"] = hist
+        except Exception:
+            pass
     # 1. confirm in the scratch worktree
     sh("git checkout -- . && git clean -fdq -e target", cwd=wt)
     c, o = sh("git apply --whitespace=nowarn %s" % diff, cwd=wt)
@@ -53,29 +71,38 @@ def main():
         print(prop, k, "REJECT (apply)")
         return
     c1, o1 = sh("cargo test --offline 2>&1 | tail -15", cwd=wt)
-    ok_tests = c1 == 0 and "FAILED" not in o1 and "error" not in o1.lower().split("test result")[0][-2000:] and "test result: ok" in o1
+    ok_tests = c1 == 0 and "FAILED" not in o1 and "error:" not in o1 and "error[" not in o1 and "test result: ok" in o1
     c2, o2 = sh('RUSTFLAGS="--cfg btdht_verif" cargo build --offline --lib 2>&1 | tail -5', cwd=wt, env={"CARGO_TARGET_DIR": wt + "/target/verifcfg"})
-    ok_cfg = c2 == 0 and "error" not in o2
-    sh("git checkout -- . && git clean -fdq -e target", cwd=wt)
+    ok_cfg = c2 == 0 and "error:" not in o2 and "error[" not in o2 and "Finished" in o2
+    if lane is None:
+        sh("git checkout -- . && git clean -fdq -e target", cwd=wt)
     meta["confirmed_tests_pass"] = ok_tests
     meta["confirmed_builds_with_hooks"] = ok_cfg
     if not (ok_tests and ok_cfg):
+        sh("git checkout -- . && git clean -fdq -e target", cwd=wt)
         meta["confirmed"] = False
         meta["reject_reason"] = "tests: %s | cfg build: %s" % (o1[-400:], o2[-300:])
         json.dump(meta, open(os.path.join(out, "meta.json"), "w"), indent=1)
         print(prop, k, "REJECT (tests/cfg)")
         return
     meta["confirmed"] = True
-    # 2. run the checks on /repo with the change applied
-    c, o = sh("git -C /repo status --short")
-    if o.strip():
-        raise SystemExit("/repo is not clean: " + o)
-    c, o = sh("git -C /repo apply --whitespace=nowarn %s" % diff)
+    # 2. run the checks with the change applied (to /repo, or in a lane to the scratch worktree seen through VERIF_REPO)
+    env = None
+    if lane is None:
+        c, o = sh("git -C /repo status --short")
+        if o.strip():
+            raise SystemExit("/repo is not clean: " + o)
+        c, o = sh("git -C /repo apply --whitespace=nowarn %s" % diff)
+        vdir = VERIF
+    else:
+        vdir = "/tmp/vlane%s" % lane
+        env = {"VERIF_REPO": wt}
+        sh("sed -i 's#^btdht = { path = .*#btdht = { path = \"%s\" }#' %s/harness/Cargo.toml" % (wt, vdir))
     results = {}
     try:
         for p in [prop] + extra:
             t = time.time()
-            c, o = sh("./check %s" % p, cwd=VERIF, timeout=5400)
+            c, o = sh("./check %s" % p, cwd=vdir, timeout=5400, env=env)
             lines = [l for l in o.split("\n") if l.startswith(("VIOLATION", "OK ", "KNOWN-FINDING", "BROKEN"))]
             results[p] = {"exit": c, "lines": [l[:400] for l in lines], "seconds": round(time.time() - t)}
             rep = [l for l in lines if l.startswith("VIOLATION")]
@@ -84,7 +111,10 @@ def main():
                 if os.path.exists(rp):
                     shutil.copy(rp, os.path.join(out, "replay-%s.json" % p))
     finally:
-        sh("git -C /repo checkout -- .")
+        if lane is None:
+            sh("git -C /repo checkout -- .")
+        else:
+            sh("git checkout -- . && git clean -fdq -e target", cwd=wt)
     meta["checks"] = results
     meta["caught_by"] = [p for p, r in results.items() if r["exit"] == 1]
     json.dump(meta, open(os.path.join(out, "meta.json"), "w"), indent=1)
